@@ -37,7 +37,10 @@ def functions_of(tree):
         elif isinstance(n, ast.ClassDef):
             for m in n.body:
                 if isinstance(m, ast.FunctionDef):
-                    out[f"{n.name}.{m.name}"] = (m, n.name)
+                    # a property setter runs only through an attribute assignment, which is a write site of the assigning code
+                    if any(isinstance(d, ast.Attribute) and d.attr in ("setter", "deleter") for d in m.decorator_list):
+                        continue
+                    out.setdefault(f"{n.name}.{m.name}", (m, n.name))
     return out
 
 
@@ -101,6 +104,8 @@ def sites_in(fn, qual, cls, rel):
 
 
 def called_names(fn):
+    """names a piece of code can reach: called names and attributes, names passed around as values (function references)
+    and string constants (method names looked up with getattr / kept in dispatch tables).  An over-approximation."""
     out = set()
     for n in ast.walk(fn):
         if isinstance(n, ast.Call):
@@ -108,23 +113,50 @@ def called_names(fn):
                 out.add(n.func.id)
             elif isinstance(n.func, ast.Attribute):
                 out.add(n.func.attr)
+        elif isinstance(n, ast.Name) and isinstance(n.ctx, ast.Load):
+            out.add(n.id)
+        elif isinstance(n, ast.Attribute) and isinstance(n.ctx, ast.Load):
+            out.add(n.attr)
+        elif isinstance(n, ast.Constant) and isinstance(n.value, str) and n.value.isidentifier():
+            out.add(n.value)
+    return out
+
+
+def module_level_refs(tree):
+    """the same for module-level and class-level statements (dispatch dicts, tables of method names)"""
+    out = set()
+    def visit(body):
+        for n in body:
+            if isinstance(n, ast.FunctionDef):
+                continue
+            if isinstance(n, ast.ClassDef):
+                visit(n.body)
+                continue
+            out.update(called_names(n))
+    visit(tree.body)
     return out
 
 
 def inventory(repo):
     src = os.path.join(repo, "src", "metapype")
-    mods = {}
+    mods, modrefs = {}, {}
     for rel in ENTRY:
         with open(os.path.join(src, rel), encoding="utf-8") as f:
-            mods[rel] = functions_of(ast.parse(f.read()))
+            tr = ast.parse(f.read())
+        mods[rel] = functions_of(tr)
+        modrefs[rel] = module_level_refs(tr)
     # name-based closure inside the listed modules
     index = {}
     for rel, fns in mods.items():
         for q in fns:
             index.setdefault(q.split(".")[-1], []).append((rel, q))
     todo = [(rel, q) for rel, qs in ENTRY.items() for q in qs]
-    # evaluators are reached through the dispatch dict `evaluate.rules`, not by a call by name
-    todo += [("eml/evaluate.py", q) for q in mods["eml/evaluate.py"] if q.endswith("_rule")]
+    # functions reached through module-level tables (the dispatch dict `evaluate.rules`, tables of method names, ...)
+    for rel, refs in modrefs.items():
+        for nm in refs:
+            if nm in MUTATORS:
+                continue
+            todo += [tgt for tgt in index.get(nm, []) if tgt[0] == rel]
     seen = set()
     while todo:
         rel, q = todo.pop()
